@@ -98,6 +98,7 @@ INDEX = {
    {"name": "VerifH16Rows", "common": {"max_depth": 3000}, "quick": {"bounds": {"steps": 2, "ops": 9, "rows": 2, "colhis": 1, "caches": 1}}, "thorough": {"bounds": {"steps": 2, "ops": 9, "rows": 4, "colhis": 2, "caches": 3}}},
    {"name": "VerifH16GroupBy", "common": {"max_depth": 3000}, "quick": {"bounds": {"patterns": 4}}, "thorough": {"bounds": {"patterns": 6}}},
    {"name": "VerifH16RowsNoCache", "common": {"max_depth": 3000}, "quick": {"bounds": {"steps": 2, "ops": 9, "rows": 2, "colhis": 1}}, "thorough": {"bounds": {"steps": 2, "ops": 9, "rows": 4, "colhis": 2}}},
+   {"name": "VerifH16RowsTime", "common": {"max_depth": 3000}, "quick": {"bounds": {"quanta": 2}}, "thorough": {"bounds": {"quanta": 4}}},
  ]},
  "C17": {"package": ".", "harnesses": [
    {"name": "VerifH17MinReducer", "quick": {"bounds": {"partials": 3}}, "thorough": {"bounds": {"partials": 4}}},
